@@ -22,8 +22,9 @@ ASSUME = [
     "scheduling latency is outside the statement",
     "low-rate relaxation: where a single message is larger than the burst (2 kB/s with 16 kB frames) the bound checked "
     "is rate*t + burst + that one message; TLC refutes the unrelaxed bound for such configurations",
-    "juju/ratelimit's Take arithmetic is modelled from its source (v1.0.2); rates are those for which "
-    "NewBucketWithRate finds quantum 1 with an exact fill interval (2e3, 2e4, 1e5 B/s)",
+    "juju/ratelimit's Take arithmetic is modelled from its source (v1.0.2) and compared with the library on random walks of "
+    "the model (TokenBucketGen); the recorded rates are those for which NewBucketWithRate finds quantum 1 with an exact "
+    "fill interval (2e3, 2e4, 1e5 B/s)",
 ]
 
 W2, W3 = "{w1, w2}", "{w1, w2, w3}"
@@ -84,13 +85,32 @@ def run(ctx):
     return run_impl(ctx, q, pool, pos, neg)
 
 
+def gen_and_replay(ctx, q):
+    """TokenBucketGen behaviours (simulation) replayed on a real ratelimit.Bucket with a scripted clock."""
+    num, hl = (150, 12) if q else (2000, 16)
+    g = lib.require_ok(lib.run_tlc(ctx, "TokenBucketGen", "TokenBucketGen.cfg",
+                                   {"QUANTA": "{1, 2, 3}", "FIS": "{1, 2, 5}", "BURSTS": "{3, 7, 10}", "SIZES": "{1, 2, 4, 9, 12}",
+                                    "MAXTIME": 60, "HISTLEN": hl}, workers=1, simulate=num, depth=400, tag="gen_sim"), "TokenBucketGen")
+    seen, behaviours = set(), []
+    for b in g.behaviours:
+        k = json.dumps(b, sort_keys=True)
+        if k not in seen:
+            seen.add(k)
+            behaviours.append(b)
+    if not behaviours:
+        raise lib.Inconclusive("TokenBucketGen produced no behaviours")
+    return behaviours
+
+
 def run_impl(ctx, q, pool, pos, neg):
+    f_gen = pool.submit(gen_and_replay, ctx, q)
     # 3. the real code on the virtual clock: multiplex scenarios, and the server's own wiring of the user's valve
     nfiles = 3 if q else 6
-    f_user = pool.submit(lib.run_go, ctx, "server", "TestVerifC19User", None, 1500)
+    # (one after the other: lib.make_overlay writes one overlay.json per check)
+    us = lib.run_go(ctx, "server", "TestVerifC19User", timeout=1500)
+    f_user = pool.submit(validate, ctx, os.path.join(us["_out_dir"], "trace_user.ndjson"), "trace_user")
     tr = lib.run_go(ctx, "multiplex", "TestVerifC19Trace", env={"VERIF_C19_FILES": nfiles}, timeout=1500)
     lib.collect_go(ctx, tr)
-    us = f_user.result()
     lib.collect_go(ctx, us)
     go_keys = sorted({v["key"] for v in tr.get("violations", []) + us.get("violations", [])})
     st = tr["stats"]
@@ -99,10 +119,18 @@ def run_impl(ctx, q, pool, pos, neg):
         us["stats"].get("scenarios", 0), us["stats"].get("trace_events", 0), go_keys))
     if st.get("dead_scenarios", 0) or us["stats"].get("dead_scenarios", 0):
         raise lib.Inconclusive("a scenario moved no data: %s" % tr.get("notes"))
+    # 3b. the model's Take arithmetic against the library Cloak calls
+    behaviours = f_gen.result()
+    inp = lib.write_lines(os.path.join(ctx.work, "c19_bucket_behaviours.ndjson"), behaviours)
+    bk = lib.run_go(ctx, "multiplex", "TestVerifC19Bucket", env={"VERIF_IN": inp})
+    lib.collect_go(ctx, bk)
+    if bk["stats"].get("drift", 0):
+        raise lib.Inconclusive("TokenBucket.tla and github.com/juju/ratelimit disagree on Take: %s" % (bk.get("notes") or [])[:3])
+    ctx.log("bucket replay: %d behaviours x 4 clock concretisations agree with ratelimit.Bucket" % len(behaviours))
     # 4. TLC validates the recorded traces against the bound (every interval, one pass)
-    vals = []
-    paths = [os.path.join(tr["_out_dir"], "trace%d.ndjson" % i) for i in range(nfiles)] + [os.path.join(us["_out_dir"], "trace_user.ndjson")]
-    for i, p in enumerate(paths):
+    vals = [(os.path.join(us["_out_dir"], "trace_user.ndjson"), f_user)]
+    for i in range(nfiles):
+        p = os.path.join(tr["_out_dir"], "trace%d.ndjson" % i)
         if os.path.getsize(p) > 0:
             vals.append((p, pool.submit(validate, ctx, p, "trace%d" % i)))
     nev, accepted, tlc_keys = 0, 0, []
@@ -145,23 +173,26 @@ def run_impl(ctx, q, pool, pos, neg):
             raise lib.Inconclusive("negative configuration %s was not refuted by TLC (violated=%s): the bound is vacuous" % (tag, r.violated))
         ctx.log("%s: refuted (%s) after %d states" % (tag, r.violated, r.distinct))
     cov = {
-        "evaluations": tr["evaluations"] + us["evaluations"],
-        "distinct_nontrivial": tr["distinct_nontrivial"] + us["distinct_nontrivial"],
+        "evaluations": tr["evaluations"] + us["evaluations"] + bk["evaluations"],
+        "distinct_nontrivial": tr["distinct_nontrivial"] + us["distinct_nontrivial"] + bk["distinct_nontrivial"],
         "rule": "one evaluation = one scenario (rates tx/rx from {2e3,2e4,1e5} B/s, 1-3 sessions x 1-4 connections x 1-3 streams sharing "
                 "one valve, write sizes {1,100,1400,16000, 3 frames}, backlogged / bursty / mixed writers, TLS-record or message links, "
                 "3 AEADs, 10-40 virtual seconds) run on the real Session/switchboard/ratelimit code in a synctest bubble; every pair of "
                 "recorded events is an interval checked by the driver, and TLC checks every interval through the virtual-queue invariant; "
                 "plus 2 (thorough: 4) scenarios whose sessions are made by server.userPanel.GetUser / ActiveUser.GetSession; "
-                "non-trivial = the bucket ran dry (more than one burst passed); distinct = distinct scenario parameters",
+                "non-trivial = the bucket ran dry (more than one burst passed); distinct = distinct scenario parameters. "
+                "Also counted: TokenBucketGen behaviours (random walks of the model, 12-16 Takes by 3 waiters) replayed on a real "
+                "ratelimit.Bucket with a scripted clock in 4 clock concretisations, non-trivial = at least one Take had to wait",
         "samples": tr["samples"] + us["samples"],
-        "traces_validated_against_impl": accepted,
+        "traces_validated_against_impl": accepted + len(behaviours),
+        "bucket_behaviours_replayed": len(behaviours),
         "trace_events_validated": nev,
         "exhaustive": True,
         "exhaustive_scope": "TokenBucket.tla: all interleavings of Take/Pass/Tick for the swept quanta, fill intervals, bursts, sizes, "
                             "1-%d waiters up to the clock horizon; the recorded scenarios are a sample" % (2 if q else 3),
         "negative_configs_refuted": sorted(neg.keys()),
         "checker_cmd": "tlc TokenBucket.tla (TokenBucket_mc.cfg) / TokenBucketTrace.tla + go test -run TestVerifC19Trace",
-        "harness_stats": {"multiplex": st, "server_activeuser": us["stats"]},
+        "harness_stats": {"multiplex": st, "server_activeuser": us["stats"], "bucket_replay": bk["stats"]},
     }
     return lib.finish(ctx, LEVEL, cov, ASSUME)
 
@@ -179,6 +210,13 @@ def scenario_of(tr, scn):
 
 def replay(ctx, path):
     rf = json.load(open(path))
+    if (rf.get("replay") or {}).get("user_scenario"):
+        res = lib.run_go(ctx, "server", "TestVerifC19User", extra_args=["-v"])
+        for v in res.get("violations", []):
+            print("REPLAY-RESULT key=%r what=%r" % (v["key"], v["what"]))
+        if not res.get("violations"):
+            print("REPLAY-RESULT keys=[]")
+        return 0
     sc = (rf.get("replay") or {}).get("scenario") or {}
     if not sc.get("sessions"):
         print("replay file names scenario %s of seed %s / tier %s only; rerun: VERIF_SEED=%s python3 tools/check.py C19 --tier %s" % (
